@@ -1048,18 +1048,30 @@ func (c *Client) DialToSMTPClientWithContext(ctxDial context.Context) (*smtp.Cli
 		client.SetLogAuthData()
 	}
 	if err = client.Hello(c.helo); err != nil {
+		closeFailedDial(client)
 		return nil, err
 	}
 
 	if err = c.tls(client, &isEncrypted); err != nil {
+		closeFailedDial(client)
 		return nil, err
 	}
 
 	if err = c.auth(client, isEncrypted); err != nil {
+		closeFailedDial(client)
 		return nil, err
 	}
 
 	return client, nil
+}
+
+// closeFailedDial releases the connection of a smtp.Client whose dial dialogue (HELO/EHLO, STARTTLS
+// or SMTP AUTH) has failed. As the smtp.Client is not returned to the caller in that case, nobody
+// else could close the underlying connection anymore.
+func closeFailedDial(client *smtp.Client) {
+	if client.HasConnection() {
+		_ = client.Close()
+	}
 }
 
 // Close terminates the connection to the SMTP server, returning an error if the disconnection
